@@ -101,17 +101,26 @@ int main(int argc, char** argv) {
 #define IOPS(REG, P, NAME, OP) IOPL(REG, P, NAME, OP, 3, 1) IOPL(REG, P, NAME, OP, 3, 2) IOPL(REG, P, NAME, OP, 3, 3) IOPL(REG, P, NAME, OP, 3, 4) \
                       IOPL(REG, P, NAME, OP, 1, 1) IOPL(REG, P, NAME, OP, 1, 2) IOPL(REG, P, NAME, OP, 1, 3) IOPL(REG, P, NAME, OP, 1, 4) \
                       IOPL(REG, P, NAME, OP, 2, 1) IOPL(REG, P, NAME, OP, 2, 2) IOPL(REG, P, NAME, OP, 2, 3) IOPL(REG, P, NAME, OP, 2, 4)
+#define IOPV1L(REG, P, NAME, OP, L) \
+  REG(nm(P "op_" NAME, {5, L}), L + 1, L, [](auto const* x, auto* o) { using T = TY(o); stv(o, ldv<L, T>(x) OP ldv<1, T>(x + L)); }); \
+  REG(nm(P "op_" NAME, {6, L}), L + 1, L, [](auto const* x, auto* o) { using T = TY(o); stv(o, ldv<1, T>(x) OP ldv<L, T>(x + 1)); });
+#define IOPV1(REG, P, NAME, OP) IOPV1L(REG, P, NAME, OP, 2) IOPV1L(REG, P, NAME, OP, 3) IOPV1L(REG, P, NAME, OP, 4)
+#define IASGL(REG, P, NAME, OP, M, L) REG(nm(P "asg_" NAME, {M, L}), L + Arg<L, int, (M & 2) != 0>::n, L, [](auto const* x, auto* o) { using T = TY(o); \
+    using B = Arg<L, T, (M & 2) != 0>; auto a = ldv<L, T>(x); a OP B::ld(x + L); stv(o, a); });
+#define IASGS(REG, P, NAME, OP) IASGL(REG, P, NAME, OP, 3, 1) IASGL(REG, P, NAME, OP, 3, 2) IASGL(REG, P, NAME, OP, 3, 3) IASGL(REG, P, NAME, OP, 3, 4) \
+                       IASGL(REG, P, NAME, OP, 1, 1) IASGL(REG, P, NAME, OP, 1, 2) IASGL(REG, P, NAME, OP, 1, 3) IASGL(REG, P, NAME, OP, 1, 4)
+#define IALLOPS(REG, P, NAME, OP, AOP) IOPS(REG, P, NAME, OP) IOPV1(REG, P, NAME, OP) IASGS(REG, P, NAME, AOP)
 #define IUNL(REG, P, L) REG(nm(P "op_neg", {L}), L, L, [](auto const* x, auto* o) { using T = TY(o); stv(o, -ldv<L, T>(x)); }); \
   REG(nm(P "op_not", {L}), L, L, [](auto const* x, auto* o) { using T = TY(o); stv(o, ~ldv<L, T>(x)); });
 #define INTS(REG, P) IF1(REG, P, abs) IS2(REG, P, min) IV2(REG, P, min, 3) IV2(REG, P, min, 1) IS2(REG, P, max) IV2(REG, P, max, 3) IV2(REG, P, max, 1) \
   IS3(REG, P, clamp) IV3(REG, P, clamp, 7) IV3(REG, P, clamp, 1) \
-  IOPS(REG, P, "add", +) IOPS(REG, P, "sub", -) IOPS(REG, P, "mul", *) IOPS(REG, P, "and", &) IOPS(REG, P, "or", |) IOPS(REG, P, "xor", ^) \
-  IOPS(REG, P, "shl", <<) IOPS(REG, P, "shr", >>) IUNL(REG, P, 1) IUNL(REG, P, 2) IUNL(REG, P, 3) IUNL(REG, P, 4)
+  IALLOPS(REG, P, "add", +, +=) IALLOPS(REG, P, "sub", -, -=) IALLOPS(REG, P, "mul", *, *=) IALLOPS(REG, P, "and", &, &=) IALLOPS(REG, P, "or", |, |=) \
+  IALLOPS(REG, P, "xor", ^, ^=) IALLOPS(REG, P, "shl", <<, <<=) IALLOPS(REG, P, "shr", >>, >>=) IALLOPS(REG, P, "mod", %, %=) IUNL(REG, P, 1) IUNL(REG, P, 2) IUNL(REG, P, 3) IUNL(REG, P, 4)
   INTS(add_unit_i32, "i")
 #define IUINTS(REG, P) IS2(REG, P, min) IV2(REG, P, min, 3) IV2(REG, P, min, 1) IS2(REG, P, max) IV2(REG, P, max, 3) IV2(REG, P, max, 1) \
   IS3(REG, P, clamp) IV3(REG, P, clamp, 7) IV3(REG, P, clamp, 1) \
-  IOPS(REG, P, "add", +) IOPS(REG, P, "sub", -) IOPS(REG, P, "mul", *) IOPS(REG, P, "and", &) IOPS(REG, P, "or", |) IOPS(REG, P, "xor", ^) \
-  IOPS(REG, P, "shl", <<) IOPS(REG, P, "shr", >>)
+  IALLOPS(REG, P, "add", +, +=) IALLOPS(REG, P, "sub", -, -=) IALLOPS(REG, P, "mul", *, *=) IALLOPS(REG, P, "and", &, &=) IALLOPS(REG, P, "or", |, |=) \
+  IALLOPS(REG, P, "xor", ^, ^=) IALLOPS(REG, P, "shl", <<, <<=) IALLOPS(REG, P, "shr", >>, >>=) IALLOPS(REG, P, "mod", %, %=)
   IUINTS(add_unit_u32, "u")
   // (uaddCarry / usubBorrow / umulExtended are declared for `uint` only, not for a generic element type: hand model C05)
 #endif
